@@ -164,7 +164,15 @@ def r10_2(ctx):
             if cal and cal.adt == "core::fmt::rt::Argument" and cal.name.startswith("new_"):
                 fills.append(pvf.operand(t_["args"][0]))
         names = [[x[2] for x in walk(e) if x[0] == "field" and x[3] == "marker::Marker"] for e in fills]
-        r.ob("template:same-expression", names == [["regex"], ["name"], ["regex"]], f.site, "format arguments: %s (matching: regex; capturing: name, regex)" % names)
+        # arguments belong to the templates in order of appearance, one per `{}`
+        by_tpl = {}
+        rest = list(names)
+        for tp in tpls:
+            k_ = sum(1 for x in tp if x == "{}")
+            by_tpl["".join(tp)] = rest[:k_]
+            rest = rest[k_:]
+        ok_args = by_tpl.get("(?:{})") == [["regex"]] and by_tpl.get("(?P<{}>{})") == [["name"], ["regex"]] and not rest
+        r.ob("template:same-expression", ok_args, f.site, "format arguments: %s (matching: regex; capturing: name, regex)" % by_tpl)
         # Marker::format is "@" + name
         g = F.fn("marker::Marker::format")
         reads = {x for x in __import__("riolib.effects", fromlist=["effects"]).effects(g).reads}
